@@ -135,6 +135,26 @@ func (c *Chain) open() error {
 	return nil
 }
 
+// Reopen builds a chain object on a DB that already holds committed state
+// (e.g. written by another process): height and header time continue the
+// BeginBlock cadence (5 s per block), account models are synced lazily.
+func Reopen(opts Options) (*Chain, error) {
+	c, err := New(opts)
+	if err != nil {
+		return nil, err
+	}
+	c.Height = c.App.LastBlockHeight()
+	c.Time = c.Time.Add(time.Duration(c.Height) * 5 * time.Second)
+	return c, nil
+}
+
+// SyncAll refreshes the sequence model of the named accounts from committed state.
+func (c *Chain) SyncAll(names ...string) {
+	for _, n := range names {
+		c.SyncAccount(c.Acc(n))
+	}
+}
+
 // Acc returns (creating if needed) the named account.
 func (c *Chain) Acc(name string) *Account {
 	a := c.Accounts[name]
